@@ -50,6 +50,15 @@ def scenarios(tier, rng):
                 if key in sp:
                     sc[key] = sp[key]
             out.append(sc); k += 1
+    # the PDU that ends the session in the SAME record as PDUs in front of it, the server silent afterwards (socket open)
+    for pn, pre, withp in (("end_in_record", [], [["bmp", 1]]), ("end_in_record_3", [{"rec": [["bmp", 1]]}], [["bmp", 2], ["bmp3", 3]]), ("end_in_record_ctl", [], [["ctl", "errinfo"]])):
+        for m in ("in_record_ultimatum", "in_record_bad_rdp", "in_record_bad_io"):
+            out.append({"id": "ir%d" % k, "pack": pn, "mode": m, "input": 0, "steps": json.loads(json.dumps(pre)) + [{"end": m, "with": withp}]}); k += 1
+    # the same packings on a session reached through NLA (Hybrid selected): the layers below are the same TLS link
+    for pn in ("two_in_one", "three_in_one", "multi_rect", "mixed"):
+        for m in ("ultimatum", "abrupt"):
+            out.append({"id": "nla%d" % k, "pack": pn + "_nla", "nla": True, "mode": m, "input": 0, "steps": json.loads(json.dumps(packs[pn])) + [{"end": m}]}); k += 1
+    out.append({"id": "nla%d" % k, "pack": "end_in_record_nla", "nla": True, "mode": "in_record_ultimatum", "input": 0, "steps": [{"end": "in_record_ultimatum", "with": [["bmp", 1], ["bmp", 2]]}]}); k += 1
     for pn, steps in packs.items():
         for m in MODES:
             for inp in ([0] if tier == "quick" and pn not in ("two_in_one", "mixed") else [0, 5]):
